@@ -305,7 +305,7 @@ func keysOf(m map[string]bool) []string {
 // when there is no timer).
 func (w *World) checkSizeTrigger() {
 	sc := w.sc
-	s := vs.Cur()
+	s := w.sched // captured in Main: the logs stay readable after the run
 	if s == nil {
 		return
 	}
@@ -373,31 +373,45 @@ func (w *World) checkSizeTrigger() {
 			// reconstructed, so the size-trigger clause is not judged here
 			continue
 		}
+		// steps at which the shard arrives at a blocking select again (its outer loop)
+		var parks []int
+		for _, pe := range s.ParkLog {
+			if pe.Thread == cs.shard {
+				parks = append(parks, pe.Step)
+			}
+		}
 		deq := 0
 		for k, step := range cs.recvs {
-			_ = step
 			if k < len(cs.sizes) {
 				deq += cs.sizes[k]
 			}
-			next := int(^uint(0) >> 1)
-			if k+1 < len(cs.recvs) {
-				next = cs.recvs[k+1]
+			// the moment the shard has finished handling this request: its next
+			// arrival at a blocking select, or its termination
+			horizon := cs.shard.DoneStep
+			if !cs.shard.Done() {
+				horizon = int(^uint(0) >> 1)
+			}
+			for _, ps := range parks {
+				if ps > step {
+					horizon = ps
+					break
+				}
+			}
+			if k+1 < len(cs.recvs) && cs.recvs[k+1] < horizon {
+				continue // dequeued the next request before blocking again (drain loop): judged there
 			}
 			exp := 0
 			for _, x := range spawns {
-				if x.step <= next {
+				if x.step <= horizon {
 					exp += x.n
 				}
 			}
 			buf := deq - exp
-			if k+1 == len(cs.recvs) {
-				continue // after the last dequeue only the timer / shutdown flush remains
-			}
 			if hasTimer && buf >= int(sc.S) {
-				w.violate("C09", "after dequeuing request #%d the shard kept %d items buffered (send_batch_size=%d) until it dequeued the next request", k, buf, sc.S)
+				w.violate("C09", "after handling request #%d the shard went back to waiting with %d items buffered although send_batch_size=%d is reached", k, buf, sc.S)
 			}
 			if !hasTimer && buf != 0 {
-				w.violate("C09", "no flush timer is configured, yet the shard kept %d items buffered after dequeuing request #%d", buf, k)
+				w.violate("C09", "no flush timer is configured, yet the shard went back to waiting with %d items buffered after handling request #%d", buf, k)
 			}
 		}
 	}
